@@ -914,7 +914,7 @@ func NamedType(na px.URI, name string, value px.Value) px.Type {
 	} else if h, ok := value.(px.OrderedMap); ok {
 		ta = createMetaType2(na, name, `Object`, ``, h)
 	} else {
-		panic(fmt.Errorf(`cannot create object from a %s`, value.PType()))
+		panic(px.Error(px.Failure, issue.H{`message`: fmt.Sprintf(`cannot create type %s from a %s`, name, value.PType())}))
 	}
 	return ta
 }
